@@ -14,8 +14,36 @@ def t2(sx, S, prefix, rsv, oldlens, lens, long):
     return ndefflow.cutflow(sx, w, n)
 
 
+def t1(sx, hr, size, prefix, rsv, oldlens, lens, long):
+    oldlen = sx.pick("oldlen", oldlens)
+    w = worlds.T1World(sx, tuple(hr), size, prefix, [tuple(r) for r in rsv], oldlen,
+                       old_lt_80=long)
+    w.long_trick = long
+    n = sx.pick("n", [x for x in lens_for(w.cap, lens) if x <= w.cap])
+    return ndefflow.cutflow(sx, w, n)
+
+
 def partitions(tier):
     parts = []
+    for nulls in range(4):
+        prefix = "N" * nulls
+        parts.append(dict(name="t1:static:%s:free" % (prefix or "-"), fn="t1",
+                          params=dict(hr=[0x11, 0x48], size=120, prefix=prefix, rsv=[],
+                                      oldlens=[0, 2], lens=[0, 1, 3], long=False)))
+        parts.append(dict(name="t1:static:%s:sep" % (prefix or "-"), fn="t1",
+                          params=dict(hr=[0x11, 0x48], size=120, prefix=prefix, rsv=[],
+                                      oldlens=[0, 4], lens=[5, "cap"], long=True)))
+        parts.append(dict(name="t1:dyn:%s:free" % (prefix or "-"), fn="t1",
+                          params=dict(hr=[0x12, 0x4C], size=512, prefix=prefix, rsv=[],
+                                      oldlens=[0, 2], lens=[0, 1, 3], long=False)))
+        for oldlens, lens, tag in (([3], [255, 300], "1to3"), ([255, 260], [3, 254], "3to1"),
+                                   ([255], [256, "cap"], "3to3")):
+            parts.append(dict(name="t1:dyn:%s:%s" % (prefix or "-", tag), fn="t1",
+                              params=dict(hr=[0x12, 0x4C], size=512, prefix=prefix, rsv=[],
+                                          oldlens=oldlens, lens=lens, long=True)))
+    parts.append(dict(name="t1:dyn:LM:mixed", fn="t1",
+                      params=dict(hr=[0x12, 0x00], size=512, prefix="LM", rsv=[[122, 6], [120, 2]],
+                                  oldlens=[0, 9], lens=[4, 100, 255], long=True)))
     # NDEF TLV offsets 0..3 modulo the 4-byte page: leading NULL TLVs
     for nulls in range(4):
         prefix = "N" * nulls
